@@ -1,6 +1,3 @@
-//go:build c07admit
-// +build c07admit
-
 package main
 
 // Admission entry points driven through the REAL handlers with mixed batches:
@@ -20,6 +17,7 @@ import (
 	"fmt"
 	"os"
 	"strconv"
+	"strings"
 
 	"com.tuntun.rangers/node/src/common"
 	"com.tuntun.rangers/node/src/core"
@@ -106,16 +104,9 @@ func (r *admitReport) viol(key, desc string, replay map[string]string) {
 	os.Stdout.Sync()
 }
 
-func runBatch(entry string, pool service.TransactionPool, c chainCfg, height uint64, batch []elem, rep *admitReport) {
-	c.apply()
-	common.SetBlockHeight(height)
-	middleware.AccountDBManagerInstance.Height = height
-	pool.Clear()
+// driveEntry pushes the transactions through one real admission entry point.
+func driveEntry(entry string, txs []*types.Transaction) (string, []byte) {
 	var body []byte
-	txs := make([]*types.Transaction, len(batch))
-	for i, e := range batch {
-		txs[i] = cloneTx(e.tx)
-	}
 	res := hx.Guard(func() string {
 		switch entry {
 		case "worker":
@@ -138,6 +129,98 @@ func runBatch(entry string, pool service.TransactionPool, c chainCfg, height uin
 		}
 		return "done"
 	})
+	return res, body
+}
+
+// batchOp: one `batch` op of the correspondence stream — the real handler on an empty pool, then
+// per position whether that element (first occurrence of its content) is in the pool.
+func (rn *runner) batchOp(tag, entry string, c chainCfg, height uint64, batch []*types.Transaction) string {
+	return rn.batchOpPre(tag, entry, c, height, nil, batch)
+}
+
+// batchOpPre: `pre` transactions are put into the pool directly (TxPool.AddTransaction, no
+// verification — they stand for what is already there), then the handler gets `batch`.
+func (rn *runner) batchOpPre(tag, entry string, c chainCfg, height uint64, pre, batch []*types.Transaction) string {
+	if len(pre) > 0 {
+		entry = entry + "+" + strconv.Itoa(len(pre))
+	}
+	all := append(append([]*types.Transaction{}, pre...), batch...)
+	c.apply()
+	o := newOracle()
+	line := "batch " + entry + " " + strconv.FormatUint(height, 10) + " " + c.tokens() + " " + strconv.Itoa(len(all))
+	for _, t := range all {
+		if t.Type == types.TransactionTypeETHTX {
+			ethOracle(o, common.FromHex(t.ExtraData), refEthChain(c, height))
+		} else {
+			nativeOracle(o, t)
+		}
+		line += " " + txTokens(t)
+	}
+	line += o.String()
+	r := rn.out.Do(line, func() string {
+		common.SetBlockHeight(height)
+		middleware.AccountDBManagerInstance.Height = height
+		rn.pool.Clear()
+		for _, t := range pre {
+			rn.pool.AddTransaction(cloneTx(t))
+		}
+		before := len(rn.pool.GetReceived())
+		txs := make([]*types.Transaction, len(batch))
+		for i, t := range batch {
+			txs[i] = cloneTx(t)
+		}
+		base := entry
+		if i := strings.IndexByte(entry, '+'); i >= 0 {
+			base = entry[:i]
+		}
+		if res, _ := driveEntry(base, txs); res != "done" {
+			return res
+		}
+		got := rn.pool.GetReceived()
+		if len(got) < before {
+			return "pool-shrunk"
+		}
+		got = got[0:len(got)]
+		flags := make([]byte, len(batch))
+		for i, t := range batch {
+			flags[i] = '0'
+			first := true
+			for j := 0; j < i; j++ {
+				if sameContent(batch[j], t) {
+					first = false
+				}
+			}
+			for _, q := range pre {
+				if sameContent(q, t) {
+					first = false // it was there before the handler ran
+				}
+			}
+			if first {
+				for _, p := range got {
+					if sameContent(p, t) {
+						flags[i] = '1'
+					}
+				}
+			}
+		}
+		rn.pool.Clear()
+		return string(flags)
+	})
+	rn.tags[tag]++
+	rn.res[tag+"/"+r]++
+	return r
+}
+
+func runBatch(entry string, pool service.TransactionPool, c chainCfg, height uint64, batch []elem, rep *admitReport) {
+	c.apply()
+	common.SetBlockHeight(height)
+	middleware.AccountDBManagerInstance.Height = height
+	pool.Clear()
+	txs := make([]*types.Transaction, len(batch))
+	for i, e := range batch {
+		txs[i] = cloneTx(e.tx)
+	}
+	res, body := driveEntry(entry, txs)
 	got := pool.GetReceived()
 	rep.Batches++
 	rep.ByEntry[entry]++
